@@ -545,6 +545,7 @@ var (
 	single12 = lists(
 		[]K{kk("a")}, []K{kk("nil")}, []K{kk("")},
 		[]K{kk("a"), kk("b")}, []K{kk("nil"), kk("a_b")}, []K{kk("a_"), kk("_")}, []K{kk(""), kk("a")},
+		[]K{kk("a"), kk("a ")}, []K{kk(" a"), kk("a")}, // keys that differ only in surrounding whitespace
 	)
 	single3 = lists(
 		[]K{kk("a"), kk("b"), kk("c")}, []K{kk("nil"), kk("a_b"), kk("a")}, []K{kk("_"), kk(""), kk("a_")},
@@ -556,6 +557,7 @@ var (
 		[]K{kk("a_b", "c"), kk("a", "b_c")}, []K{kk("a", "b_c"), kk("a_b", "c")},
 		[]K{kk("a", "b"), kk("b", "a")}, []K{kk("a", "b"), kk("a", "c")}, []K{kk("a", "c"), kk("b", "c")},
 		[]K{kk("nil", "a"), kk("a", "nil")}, []K{kk("a", "_"), kk("a_", "")}, []K{kk("", "a"), kk("a", "")},
+		[]K{kk("a", "b"), kk("a ", "b")},
 	)
 	css3 = lists(
 		[]K{kk("a_b", "c"), kk("a", "b_c"), kk("a", "b")}, []K{kk("a", "b"), kk("b", "a"), kk("a", "a")},
